@@ -118,9 +118,9 @@ VARIANTS = [
     M("C07", "multival-split-other-literal", P, '            if dialect["repeated keys"]:\n                quals[key].append(val)\n            else:\n                vals = val.split(",")',
       '            if dialect["repeated keys"]:\n                quals[key].append(val)\n            else:\n                vals = val.split("|")', "R3"),
     M("C07", "quote-added-single", P, "val_str = '\"%s\"' % val_str", "val_str = \"'%s'\" % val_str"),
-    M("C07", "trailing-semicolon-not-replayed", P, '    if dialect["trailing semicolon"]:\n        parts_str += ";"', '    if False:\n        parts_str += ";"', "R1"),
+    M("C07", "trailing-semicolon-not-replayed", P, '    if dialect["trailing semicolon"]:\n        parts_str += ";"', '    if False:\n        parts_str += ";"', "R6"),
     M("C07", "field-separator-not-recorded", P, '            dialect["field separator"] = sep\n            break', "            break"),
-    M("C07", "order-not-replayed", P, '            return dialect["order"].index(x[0])', "            return 0", "R1"),
+    M("C07", "order-not-replayed", P, '            return dialect["order"].index(x[0])', "            return 0", "R6"),
     M("C07", "quote-after-keyval-join", P, "                # Surround with quotes if needed\n                if dialect[\"quoted GFF2 values\"]:\n                    val_str = '\"%s\"' % val_str\n\n                # Typically \"=\" for GFF3 or \" \" otherwise\n                part = dialect[\"keyval separator\"].join([key, val_str])",
       "                part = dialect[\"keyval separator\"].join([key, val_str])\n                if dialect[\"quoted GFF2 values\"]:\n                    part = '\"%s\"' % part"),
     T("C07", "rename-parts-str", (P, "parts_str", "joined", "all")),
